@@ -147,6 +147,11 @@ fn documents(thorough: bool) -> Vec<String> {
         docs.push(format!("{{\"x\": {}}}", s));
         docs.push(format!("{{\"x\": {{{}: {}}}}}", s, s));
     }
+    // raw (unescaped) invisible and special code points inside strings and keys, at the start, in the
+    // middle and at the end - and keys that differ only by such a character
+    for cp in ['\u{feff}', '\u{200b}', '\u{a0}', '\u{2028}', '\u{2029}', '\u{85}', '\u{fffe}', '\u{fffd}', '\u{ad}', '\u{202e}', '\u{7f}', '\u{e000}', '\u{10ffff}'] {
+        docs.push(format!("{{\"x\": [\"{c}a\", \"a{c}b\", \"b{c}\", \"{c}\", {{\"{c}\": \"v1\", \"\": \"v2\", \"k{c}\": \"v3\", \"k\": \"v4\"}}]}}", c = cp));
+    }
     // strings and keys made of JSON's own punctuation: any textual pre- or post-processing of the
     // document (comment stripping, trailing-comma leniency, key rewriting) shows here
     let punct = [',', ' ', ']', '}', '[', '{', ':', '"', '\\', 'a', '/'];
